@@ -459,6 +459,18 @@ class C14(PropBase):
         # 32-bit ARM on iOS unwinds by frame pointer only (fp = 0 ends the walk): no scanned frame to observe
         return arch in ARCH_SCAN and not (arch == 5 and case.split(" ", 2)[1] == "33026")
 
+    @staticmethod
+    def f1_region(arch, nmems, f1):
+        """which memory region the first recovered caller frame was read from ('-1' none, 'x..' unrecognised)"""
+        if f1 == "-":
+            return "-1"
+        if arch in ARCH_WORD8:
+            j, r = divmod(int(f1) + 8 - ANCHOR_WORD, 16)      # the frame's instruction is the word minus 1..8
+            return str(j) if r < 8 and 0 <= j < nmems else "x" + f1
+        v = int(f1) + 8                                       # 0x7j7j7j7j minus 1..8
+        j = (v >> 24) - 0x70
+        return str(j) if 0 <= j < nmems and 0 <= 0x01010101 * (0x70 + j) - int(f1) <= 8 else "x" + f1
+
     def canon_impl(self, case, ans, profile):
         if ans.startswith("P;;"):
             return "P;;"
@@ -469,15 +481,7 @@ class C14(PropBase):
         for f in parse_threads(d["T"]):
             tid, name, info, ip, sp, nframes, f1, unl = f
             if self.scan_observable(case, arch) and ip != "-" and (arch not in ARCH_WORD8 or int(sp) % 8 == 0):
-                if f1 == "-":
-                    reg = "-1"
-                elif arch in ARCH_WORD8:
-                    j, r = divmod(int(f1) + 8 - ANCHOR_WORD, 16)      # the frame's instruction is the word minus 1..8
-                    reg = str(j) if r < 8 and 0 <= j < len(c.mems) else "x" + f1
-                else:
-                    v = int(f1) + 8                                   # 0x7j7j7j7j minus 1..8
-                    j = (v >> 24) - 0x70
-                    reg = str(j) if 0 <= j < len(c.mems) and 0 <= 0x01010101 * (0x70 + j) - int(f1) <= 8 else "x" + f1
+                reg = self.f1_region(arch, len(c.mems), f1)
             else:
                 reg = "?"
             th.append(":".join([tid, name, info, ip, sp, reg, canon_unl_impl(unl)]))
@@ -558,6 +562,31 @@ class C14(PropBase):
                 return "thread index %d starts from context (ip,sp)=%s, expected %s%s" % (i, got, want, " (the exception's context)" if i == R else "")
             if (got is None) != (f[2] == "2"):
                 return "thread index %d: info %s inconsistent with context presence" % (i, f[2])
+        # stack memory of each walk: when the starting context's stack pointer lies in exactly one memory region of the
+        # dump (and that region intersects no other, so every lookup finds it), the walk must read THAT region — each
+        # region holds its own distinguishable return address, so the first caller frame tells which one was used
+        wsize = 8 if c.arch in ARCH_WORD8 else 4
+        if self.scan_observable(case, c.arch):
+            for i, f in enumerate(th):
+                if f[3] == "-" or (c.arch in ARCH_WORD8 and int(f[4]) % 8 != 0):
+                    continue
+                sp = int(f[4])
+                holders = [j for j, (b, sz) in enumerate(c.mems) if b <= sp < b + sz]
+                if len(holders) != 1:
+                    continue
+                j = holders[0]
+                b, sz = c.mems[j]
+                if any(k != j and b2 < b + sz and b < b2 + sz2 for k, (b2, sz2) in enumerate(c.mems)):
+                    continue
+                if b + sz - sp < 8:          # fewer than 8 bytes at sp: which region is consulted first is not judged
+                    continue
+                got = self.f1_region(c.arch, len(c.mems), f[6])
+                if got != str(j):
+                    t = c.threads[i]
+                    return ("thread index %d starts at sp %#x, which lies only in memory region %d [%#x,+%d), but its caller frame was read from %s "
+                            "(the thread's own stack descriptor is %s)" % (
+                                i, sp, j, b, sz, "no memory" if got == "-1" else "region " + got,
+                                "region %d" % t["sidx"] if t["sidx"] >= 0 else "null"))
         # crash address
         if c.exc:
             if d["X"] == "-":
